@@ -81,6 +81,8 @@ type adversary struct {
 	me    int
 	peers []peer.ID
 
+	distinctSeq int // slots filled with distinct own signatures so far (guarded by mu)
+
 	mu        sync.Mutex
 	sigs      map[poolKey][]byte // signatures known to the faulty member
 	byMember  map[int][]poolEntry
@@ -430,7 +432,7 @@ func (a *adversary) payloadFor(id string) (*payload, *anypb.Any) {
 
 var fillers = []string{
 	"random", "empty", "short64", "adv-over-payload", "same-member-other-payload", "other-member-same-payload",
-	"same-payload-other-requester", "omit-slot", "omit-slot",
+	"same-payload-other-requester", "omit-slot", "omit-slot", "adv-distinct-own-signatures", "adv-distinct-own-signatures",
 }
 
 func (a *adversary) randomSig() []byte {
@@ -452,6 +454,15 @@ func (a *adversary) fill(filler string, w *world, id string, any *anypb.Any, slo
 		return a.randomSig()[:64]
 	case "adv-over-payload":
 		if s := a.signVia(w, a.me, id, any); s != nil {
+			return s
+		}
+	case "adv-distinct-own-signatures":
+		// a valid signature by the faulty member itself, different in every slot
+		a.mu.Lock()
+		k := a.distinctSeq
+		a.distinctSeq++
+		a.mu.Unlock()
+		if s := a.distinctOwnSig(w, id, any, k%3); s != nil {
 			return s
 		}
 	case "same-member-other-payload":
@@ -630,10 +641,16 @@ func (a *adversary) step() {
 // skip members when collecting signatures and withhold the message from some members.
 func (a *adversary) playOwnBroadcast(w *world, id, label string) {
 	p, any := a.payloadFor(id)
-	for _, to := range a.honest2(true) {
-		a.sigReq(w, to, id, any, p.Tag, label)
+	filler := kit.Pick(a.rng, fillers)
+	if a.rng.Intn(5) == 0 {
+		// asks nobody: every slot but its own gets a distinct signature made with its own key
+		filler, label = "adv-distinct-own-signatures", label+"/asked-nobody"
+	} else {
+		for _, to := range a.honest2(true) {
+			a.sigReq(w, to, id, any, p.Tag, label)
+		}
 	}
-	sigs, complete := a.buildSigs(w, id, any, kit.Pick(a.rng, fillers), nil)
+	sigs, complete := a.buildSigs(w, id, any, filler, nil)
 	m := fullMsg{world: w.idx, sender: a.me, id: id, any: any, sigs: sigs, tag: p.Tag}
 	if complete {
 		a.mu.Lock()
